@@ -403,3 +403,187 @@ pub mod sup {
         r
     }
 }
+
+/// Debug machinery (C06, C20): a fixed-capacity `fmt::Write`, direct `Formatter::new`, field
+/// types whose Debug prints a concrete token and logs (id, value) to a side channel, and the
+/// ASCII-needle model of `CharSearcher::next_match` used as a Kani stub in `{:#?}` mode.
+pub mod dbg {
+    #[cfg(not(kani))]
+    use super::kani;
+    use super::sup::Sym;
+    use core::fmt::{self, Debug, Formatter, Write};
+    #[cfg(kani)]
+    use core::fmt::FormattingOptions;
+
+    pub const BUF_CAP: usize = 128;
+    pub struct Buf {
+        pub b: [u8; BUF_CAP],
+        pub n: usize,
+        pub overflow: bool,
+    }
+    impl Buf {
+        pub fn new() -> Self {
+            Buf { b: [0; BUF_CAP], n: 0, overflow: false }
+        }
+        pub fn same(&self, o: &Buf) -> bool {
+            if self.n != o.n {
+                return false;
+            }
+            let mut i = 0;
+            while i < self.n {
+                if self.b[i] != o.b[i] {
+                    return false;
+                }
+                i += 1;
+            }
+            true
+        }
+    }
+    impl Write for Buf {
+        fn write_str(&mut self, s: &str) -> fmt::Result {
+            let bytes = s.as_bytes();
+            let mut i = 0;
+            while i < bytes.len() {
+                if self.n < BUF_CAP {
+                    self.b[self.n] = bytes[i];
+                    self.n += 1;
+                } else {
+                    self.overflow = true;
+                }
+                i += 1;
+            }
+            Ok(())
+        }
+    }
+
+    pub const LOG_CAP: usize = 8;
+    pub static mut LOG: [(u8, u8); LOG_CAP] = [(0, 0); LOG_CAP];
+    pub static mut LOG_N: usize = 0;
+    pub fn log_reset() {
+        unsafe {
+            LOG_N = 0;
+            LOG = [(0, 0); LOG_CAP];
+        }
+    }
+    pub fn log_push(id: u8, v: u8) {
+        unsafe {
+            if LOG_N < LOG_CAP {
+                LOG[LOG_N] = (id, v);
+            }
+            LOG_N += 1;
+        }
+    }
+    pub fn log_take() -> ([(u8, u8); LOG_CAP], usize) {
+        unsafe { (LOG, LOG_N) }
+    }
+
+    /// Field value type: Debug prints the fixed token `v<ID>` and logs (ID, value).
+    #[derive(Clone, Copy)]
+    pub struct Val<const ID: u8>(pub u8);
+    const TOK: [&str; 8] = ["v0", "v1", "v2", "v3", "v4", "v5", "v6", "v7"];
+    impl<const ID: u8> Debug for Val<ID> {
+        fn fmt(&self, f: &mut Formatter<'_>) -> fmt::Result {
+            log_push(ID, self.0);
+            f.write_str(TOK[(ID & 7) as usize])
+        }
+    }
+    impl<const ID: u8> Sym for Val<ID> {
+        fn sym() -> Self {
+            Val(kani::any())
+        }
+    }
+    /// custom formatting method: prints a different token and logs with bit 7 set in the id
+    pub fn fmt_m<const ID: u8>(v: &Val<ID>, f: &mut Formatter<'_>) -> fmt::Result {
+        log_push(ID | 0x80, v.0);
+        f.write_str("Mm")
+    }
+    /// two-line output: exercises PadAdapter's per-line indentation
+    pub fn fmt_nl<const ID: u8>(v: &Val<ID>, f: &mut Formatter<'_>) -> fmt::Result {
+        log_push(ID | 0x40, v.0);
+        f.write_str("p\nq")
+    }
+
+    #[cfg(kani)]
+    pub fn render<T: Debug>(x: &T, alternate: bool) -> (Buf, fmt::Result) {
+        let mut buf = Buf::new();
+        let mut opts = FormattingOptions::new();
+        opts.alternate(alternate);
+        let r = {
+            let mut f = Formatter::new(&mut buf, opts);
+            Debug::fmt(x, &mut f)
+        };
+        (buf, r)
+    }
+    #[cfg(not(kani))]
+    pub fn render<T: Debug>(x: &T, alternate: bool) -> (Buf, fmt::Result) {
+        let mut buf = Buf::new();
+        let r = if alternate { write!(buf, "{:#?}", x) } else { write!(buf, "{:?}", x) };
+        (buf, r)
+    }
+
+    /// Mirror of `core::str::pattern::CharSearcher` (same field types in the same order, so the
+    /// same rustc lays it out identically; checked by `h_stub_*` harnesses against the real one).
+    pub struct CharSearcherMirror<'a> {
+        pub haystack: &'a str,
+        pub finger: usize,
+        pub finger_back: usize,
+        pub needle: char,
+        pub utf8_size: u8,
+        pub utf8_encoded: [u8; 4],
+    }
+
+    #[cfg(any(kani, stubcheck))]
+    pub fn next_match_stub<'a>(s: &mut core::str::pattern::CharSearcher<'a>) -> Option<(usize, usize)>
+    where
+        'a: 'a,
+    {
+        let m: &mut CharSearcherMirror<'a> = unsafe { &mut *(s as *mut core::str::pattern::CharSearcher<'a> as *mut CharSearcherMirror<'a>) };
+        // model valid for 1-byte (ASCII) needles only
+        assert!(m.utf8_size == 1);
+        let bytes = m.haystack.as_bytes();
+        let mut i = m.finger;
+        while i < m.finger_back {
+            if bytes[i] == m.utf8_encoded[0] {
+                m.finger = i + 1;
+                return Some((i, i + 1));
+            }
+            i += 1;
+        }
+        m.finger = m.finger_back;
+        None
+    }
+
+    /// Native differential validation of the model against the real function, run with Kani's
+    /// own toolchain (`--cfg stubcheck`): every string of length <= 7 over {a, b, \n}.
+    #[cfg(stubcheck)]
+    pub fn stub_selfcheck() -> usize {
+        use core::str::pattern::{Pattern, Searcher};
+        assert!(core::mem::size_of::<core::str::pattern::CharSearcher<'static>>() == core::mem::size_of::<CharSearcherMirror<'static>>());
+        let alphabet = [b'a', b'b', b'\n'];
+        let mut count = 0usize;
+        for len in 0..8usize {
+            let total = 3usize.pow(len as u32);
+            for code in 0..total {
+                let mut v = Vec::with_capacity(len);
+                let mut c = code;
+                for _ in 0..len {
+                    v.push(alphabet[c % 3]);
+                    c /= 3;
+                }
+                let s = String::from_utf8(v).unwrap();
+                let mut real = '\n'.into_searcher(s.as_str());
+                let mut model = '\n'.into_searcher(s.as_str());
+                loop {
+                    let a = real.next_match();
+                    let m = next_match_stub(&mut model);
+                    assert!(a == m, "CharSearcher::next_match model disagrees with the real function on {:?}", s);
+                    count += 1;
+                    if a.is_none() {
+                        break;
+                    }
+                }
+            }
+        }
+        count
+    }
+}
